@@ -15,6 +15,7 @@ every explored path (translator validation) and (b) to replay counterexamples
 before they are reported.
 """
 import time
+from decimal import Decimal as _Decimal
 import z3
 
 # ---------------------------------------------------------------------------
@@ -119,6 +120,47 @@ def _boolterm(b):
     return z3.BoolVal(bool(b))
 
 
+class SymScaled:
+    """symbolic int times a concrete float/Decimal factor: can only be
+    rendered as text, compared for identity of (base, factor), or scaled
+    again.  Arithmetic beyond that is unsupported (floats are not modelled)."""
+    __slots__ = ("base", "factor")
+
+    def __init__(self, base, factor):
+        self.base = base
+        self.factor = factor
+
+    def concrete(self, v):
+        return v * self.factor
+
+    def __mul__(self, o):
+        if isinstance(o, (int, float, _Decimal)) and not isinstance(o, bool):
+            return SymScaled(self.base, self.factor * o)
+        raise EngineUnsupported("arithmetic on a scaled symbolic value")
+    __rmul__ = __mul__
+
+    def __format__(self, spec):
+        return Ctx.cur.token(self, spec)
+
+    def __str__(self):
+        return Ctx.cur.token(self, "")
+
+    def __repr__(self):
+        return Ctx.cur.token(self, "r")
+
+    def _unsupported(self, *a):
+        raise EngineUnsupported("arithmetic/comparison on a scaled symbolic value")
+    __add__ = __radd__ = __sub__ = __rsub__ = __truediv__ = __lt__ = __le__ = __gt__ = __ge__ = _unsupported
+    __float__ = __int__ = __bool__ = _unsupported
+
+    def __eq__(self, o):
+        if type(o) is SymScaled and o.factor == self.factor:
+            return self.base == o.base
+        raise EngineUnsupported("comparison of a scaled symbolic value")
+
+    __hash__ = None
+
+
 class SymInt:
     """Proxy for a Python ``int`` whose value is a z3 bit-vector term.
 
@@ -180,6 +222,8 @@ class SymInt:
     def __mul__(self, o):
         b = _term(o)
         if b is None:
+            if isinstance(o, (float, _Decimal)):
+                return SymScaled(self, o)
             return NotImplemented
         l, h = _rng(o)
         c = [self.lo * l, self.lo * h, self.hi * l, self.hi * h]
@@ -920,6 +964,8 @@ class Ctx(_Base):
             return model.eval(value.t, model_completion=True).as_signed_long()
         if type(value) is SymBool:
             return bool(z3.is_true(model.eval(value.t, model_completion=True)))
+        if type(value) is SymScaled:
+            return value.concrete(model.eval(value.base.t, model_completion=True).as_signed_long())
         if isinstance(value, shims.SymBytes):
             return bytes(self.evaluate(b, model) for b in value.items)
         if isinstance(value, (list, tuple)):
@@ -936,8 +982,13 @@ class Ctx(_Base):
 
         def sub(m):
             s = self.tokens[int(m.group(1))]
-            v = model.eval(s.t, model_completion=True).as_signed_long()
+            if type(s) is SymScaled:
+                v = s.concrete(model.eval(s.base.t, model_completion=True).as_signed_long())
+            else:
+                v = model.eval(s.t, model_completion=True).as_signed_long()
             spec = m.group(2)
+            if spec == "c":
+                return chr(v)
             if spec == "r":
                 return repr(v)
             return format(v, spec)
@@ -959,6 +1010,10 @@ class Ctx(_Base):
             if l1[i + 1] != l2[i + 1]:
                 return False
             a, b = self.tokens[int(l1[i])], self.tokens[int(l2[i])]
+            if type(a) is SymScaled or type(b) is SymScaled:
+                if type(a) is not type(b) or a.factor != b.factor:
+                    return False
+                a, b = a.base, b.base
             conds.append(E.eq(a, b))
         return E.and_(*conds) if conds else True
 
